@@ -61,6 +61,14 @@ def gen_cases(ctx):
         for qs in (list(range(n)), list(reversed(range(n)))):
             for inverse in (False, True):
                 add(n, qs, inverse)
+    # the same inside rayon pools whose size is not a power of two (rayon path forced), and with the OpenCL size threshold lowered
+    # (a build without the `gpu` feature must stay on the CPU paths whatever the register size)
+    for n in (3, 4, 5):
+        for _ in range(2):
+            qs = rng.sample(range(n), rng.randrange(2, n + 1))
+            for inverse in (False, True):
+                add(n, qs, inverse, thr=1); cases[-1]["pool"] = rng.choice([3, 5, 6, 7])
+                add(n, qs, inverse); cases[-1]["ocl"] = rng.choice([0, 2])
     for n, m, ncols in big:
         qs = rng.sample(range(n), m)
         for inverse in (False, True):
